@@ -2,4 +2,4 @@
 # tools/tlc.sh <Module> <cfg> [extra TLC args]: run TLC on a family in a scratch dir (development helper)
 M=$1; C=$2; shift 2
 D=/verif/.work/dev_$M; mkdir -p $D; cp /verif/spec/*.tla /verif/spec/fam/* $D/ 2>/dev/null; cp /verif/spec/trace/* $D/ 2>/dev/null
-cd $D && rm -f out.ndjson && java -Dfile.encoding=UTF-8 -XX:+UseParallelGC -Xss512m -Dverif.out=out.ndjson -cp /opt/veriftools/tla/tla2tools.jar:/opt/veriftools/tla/CommunityModules-deps.jar:/verif/build/classes tlc2.TLC -metadir ./md -workers ${W:-16} -config $C "$@" $M 2>&1 | grep -v "^Loading"
+cd $D && rm -f out.ndjson && java -Dfile.encoding=UTF-8 -Dtlc2.tool.queue.IStateQueue=MemStateQueue -XX:+UseParallelGC -Xss512m -Dverif.out=out.ndjson -cp /opt/veriftools/tla/tla2tools.jar:/opt/veriftools/tla/CommunityModules-deps.jar:/verif/build/classes tlc2.TLC -metadir ./md -workers ${W:-16} -config $C "$@" $M 2>&1 | grep -v "^Loading"
